@@ -55,6 +55,10 @@ impl std::fmt::Display for Ipv4Subnet {
 
 impl Ipv4Subnet {
     pub fn new(addr: std::net::Ipv4Addr, prefixlen: u8) -> Result<Self, Error> {
+        /* An IPv4 prefix is at most 32 bits long (and netmask() shifts by the prefix length) */
+        if prefixlen > 32 {
+            return Err(Error::InvalidSubnet);
+        }
         let ret = Self { addr, prefixlen };
         /* If the prefix is too short, then return an error */
         if u32::from(ret.addr) & !u32::from(ret.netmask()) != 0 {
